@@ -47,6 +47,7 @@ class Ctx:
         self.feas_timeout = 800
         self.sqrt_hints = []
         self.sign_hints = []
+        self.signfacts = []                   # (rel, truth) of branch conditions taken
         self.probe_env = None
         self.nosplit = False
         self.notes = []
@@ -144,6 +145,7 @@ class Obligation:
         self.tol = b.tol
         self.rel = b.rel
         self.sign_hints = list(c.sign_hints)
+        self.signfacts = list(c.signfacts)
 
 
 # ---------------------------------------------------------------------------
@@ -589,7 +591,10 @@ class B:
             return True
         if z3.is_false(zs):
             return False
-        return c.decide(self.z)
+        d = c.decide(self.z)
+        if self.rel is not None:
+            c.signfacts.append((self.rel, d))
+        return d
 
     def __and__(self, o):
         return And(self, o)
@@ -621,6 +626,8 @@ class B:
 def _bz(x):
     if isinstance(x, B):
         return x.z
+    if isinstance(x, NumCheck):
+        return z3.BoolVal(x.ok)
     if isinstance(x, (bool,)):
         return z3.BoolVal(x)
     import numpy as _np
@@ -673,16 +680,22 @@ def And(*xs):
     if not symbolic(*xs):
         return all(bool(x) for x in xs)
     zs = []
+    rel = None
     for x in xs:
         for c in flatten_conj(x):
+            if isinstance(c, NumCheck):
+                c = c.ok
             if c is False:
                 return False
             if c is True:
                 continue
             zs.append(c.z)
+            rel = c.rel
     if not zs:
         return True
-    return B(z3.And(*zs) if len(zs) > 1 else zs[0])
+    if len(zs) == 1:
+        return B(zs[0], rel=rel)
+    return B(z3.And(*zs))
 
 
 def Or(*xs):
@@ -692,6 +705,8 @@ def Or(*xs):
     for x in xs:
         if isinstance(x, Conj):
             x = And(x)
+        if isinstance(x, NumCheck):
+            x = x.ok
         if x is True:
             return True
         if x is False:
@@ -707,6 +722,8 @@ def Not(x):
         x = And(x)
     if not isinstance(x, B):
         return not x
+    if x.eq is not None:
+        return B(z3.Not(x.z), rel=('!=', x.eq[0], x.eq[1]))
     return B(z3.Not(x.z))
 
 
@@ -970,16 +987,23 @@ def sin(x):
 
 
 def _quick_differs(c, p):
-    """cheap numeric pre-filter: True if polynomial p is clearly non-zero at the probe point"""
-    env = c.probe_env
-    if env is None:
+    """cheap numeric pre-filter: True if polynomial p is clearly non-zero at a probe point that
+    satisfies the current path condition (used only to skip hopeless proof hints)"""
+    envs = c.probe_env
+    if not envs:
         return False
-    try:
-        env = complete_env(c, env)
-        v = numeval(p, env)
-        return abs(v) > 1e-6
-    except Exception:
-        return False
+    if isinstance(envs, dict):
+        envs = [envs]
+    for env0 in envs:
+        try:
+            env = complete_env(c, env0)
+            if not all(numeval(f, env) for f in c.pc):
+                continue
+            v = numeval(p, env)
+            return abs(v) > 1e-6
+        except Exception:
+            continue
+    return False
 
 
 def sqrt(x, nonneg_known=False):
@@ -996,7 +1020,10 @@ def sqrt(x, nonneg_known=False):
     from . import cert as _cert
     for (a, r0) in c.memo.setdefault('sqrts', []):
         p = eq_poly(x, a)
-        if p is not None and _cert.check_identity(p, 2000):
+        if p is None or _quick_differs(c, p):
+            continue
+        if _cert.check_identity(p, 2000) or \
+                _cert.prove_eq(p, c.hyps, c.order, timeout=10, facts=c.facts + c.pc)['status'] == 'discharged':
             c.memo[key] = r0
             return r0
     # proof guidance: a contract may name candidate closed forms s; s is used only after the
@@ -1011,12 +1038,8 @@ def sqrt(x, nonneg_known=False):
         r_ = _cert.prove_eq(p, c.hyps, c.order, timeout=20, facts=c.facts + c.pc)
         if r_['status'] != 'discharged':
             continue
-        sol = z3.Solver()
-        sol.set('timeout', 5000)
-        for f in c.facts + c.pc:
-            sol.add(f)
-        sol.add(s_.z < 0)
-        if sol.check() == z3.unsat:
+        from . import signs as _signs
+        if _signs.prove_sign(c, c.facts, c.pc, c.hyps, s_, '>=', c.sign_hints, c.signfacts, cert_timeout=10):
             c.memo[key] = s_
             c.memo['sqrts'].append((x, s_))
             c.notes.append('sqrt resolved to a closed form named by the contract (certificate + sign checked)')
